@@ -444,6 +444,11 @@ def go_check(moddir, package_root, vet=True, timeout=900):
         found = False
         for ln in text.split("\n"):
             m = GO_ERR.match(ln.strip())
+            if m and "go.dev/issue/50729" in m.group(4):
+                # `go vet`'s type checker on a type alias inside a recursive type: a limitation of the toolchain
+                # (the compiler accepts the package), not a diagnostic about the generated code
+                found = True
+                continue
             if m:
                 found = True
                 out.append({"pkg": m.group(1).split("/")[0], "file": m.group(1), "line": int(m.group(2)),
@@ -461,7 +466,7 @@ def go_check(moddir, package_root, vet=True, timeout=900):
             parse(text, "vet")
             # vet repeats type errors of packages that do not build: keep only what is new
             out[before:] = [e for e in out[before:] if e["pkg"] not in bad]
-            if len(out) == before and not bad and "vet:" in text:
+            if len(out) == before and not bad and "vet:" in text and "go.dev/issue/50729" not in text:
                 out.append({"pkg": "", "file": "", "line": 0, "stage": "vet", "msg": text[-600:]})
     return out
 
@@ -551,6 +556,8 @@ print(json.dumps(res))
 
 
 PY_CLASSES = [
+    (r"circular import", "packages-refer-to-each-other"),
+    (r"TypeError: '.*' already defined as", "enum-with-repeated-member"),
     (r"typing\.Union\[\]", "empty-union-type"),
     (r"IndentationError: expected an indented block after function definition.*", "function-without-body"),
     (r"SyntaxError: duplicate argument .*", "duplicate-declaration"),
@@ -623,6 +630,7 @@ def java_check(ctx, javadir, timeout=600):
 
 
 JAVA_CLASSES = [
+    (r"cannot inherit from final .*", "alias-of-enum-as-subclass"),
     (r"enum constant expected here", "enum-member-name-not-an-identifier"),
     (r"cannot find symbol symbol: class unknown\b.*", "placeholder-type-unknown"),
     (r"cannot find symbol symbol: (class|variable) (UnknownDataquery|Registry|Dataquery|PanelConfig)\b.*", "foundation-sdk-class-missing"),
